@@ -41,7 +41,9 @@ def resolver_cases(seed, count, max_side, tag, seqs=None, families=None):
     rng = random.Random(seed)
     seqs = seqs or gen.RESOLVER_SEQS
     for i in range(count):
-        g, z, mask, bl = _world(rng, max_side, family=rng.choice(families) if families else None)
+        g, z, mask, bl = _world(rng, max_side, family=rng.choice(families) if families else None, spacings=(1, 1, 2, 3, 30))
+        if g["t"] in ("raster", "profile") and rng.random() < 0.2:
+            g["sc"] = rng.choice([-6, 5, 10])
         # the same objects then live on: other fields, other base levels / masks, the first field again
         z2 = gen.rand_field(rng, g, rng.choice(["tied", "bowl", "distinct", "tied3"]))
         mask2, bl2 = gen.rand_mask_bl(rng, g)
@@ -184,6 +186,8 @@ def history_cases(seed, count, max_side, tag, thr=None):
 
         def visit(gid, c, full):
             st = [dict(op="mask", g=gid, m=c["mask"])]
+            if rng.random() < 0.25:
+                st.append(dict(op="mask_bad", g=gid))     # a refused call in between changes nothing
             bl = list(c["bl"])
             rng.shuffle(bl)
             st.append(dict(op="bl", g=gid, bl=bl))
@@ -221,8 +225,51 @@ def history_cases(seed, count, max_side, tag, thr=None):
                 steps.append(dict(op="basins", g=fi))
         for c in configs:
             steps += visit(0, c, True)
+        if rng.random() < 0.5:
+            # aliasing: the array returned by an update is given back as the next argument (the object itself,
+            # "z = graph.update_routes(z)"), later a copy of the same values, and a copy on a fresh graph
+            c = configs[0]
+            steps += visit(0, c, False)
+            steps += [dict(op="update", g=0, z=dict(k="prev", of=0, alias=1)), dict(op="acc", g=0, src=[1] * n)]
+            steps += [dict(op="update", g=0, z=c["z"]), dict(op="update", g=0, z=dict(k="prev", of=0, alias=0)),
+                      dict(op="acc", g=0, src=[1] * n)]
+            steps += [dict(op="update", g=1, z=c["z"]), dict(op="update", g=1, z=dict(k="prev", of=1, alias=rng.choice([0, 1]))),
+                      dict(op="acc", g=1, src=[1] * n)]
         steps += [dict(op="drop", g=gi) for gi in range(len(configs) + 1)]
         yield flow_case("%s-%d-%d" % (tag, seed, i), g, steps)
+
+
+def wrap_cases(seed, tag, widths=(8, 16), deltas=(-2, -1, 0, 1, 2)):
+    """Long call histories on one object: a depression node stays masked during 2^w + delta consecutive
+    update_routes calls (all but the first unlogged: 'burn'), is then unmasked, and the observation must be the
+    one made before (no hidden state) and satisfy the contracts.  Reaches wrap-arounds of 8- and 16-bit
+    call counters / visit stamps."""
+    rng = random.Random(seed)
+    k = 0
+    for w in widths:
+        for dl in deltas:
+            for ops in ([gen.op_pflood(), gen.op_single()], [gen.op_single(), gen.op_mst("kruskal", "carve")],
+                        [gen.op_single(), gen.op_mst("boruvka", "basic")], [gen.op_pflood(), gen.op_multi(4)]):
+                nr, nc = rng.randint(3, 4), rng.randint(3, 5)
+                g = gen.raster(nr, nc, rng.choice(["queen", "rook"]), [gen.FV] * 4)
+                n = nr * nc
+                interior = [r * nc + c for r in range(1, nr - 1) for c in range(1, nc - 1)]
+                m = [5] * n
+                for i in interior:
+                    m[i] = rng.randint(0, 3)
+                z = dict(k="int", m=m, e=0)
+                z2 = dict(k="int", m=[rng.randint(0, 6) for _ in range(n)], e=0)
+                masked = rng.sample(interior, min(len(interior), rng.randint(1, 2)))
+                mask = [1 if i in masked else 0 for i in range(n)]
+                none = [0] * n
+                times = (1 << w) + dl - 1
+                steps = [dict(op="new", g=0, ops=copy.deepcopy(ops)), dict(op="update", g=0, z=z), dict(op="update", g=0, z=z2),
+                         dict(op="mask", g=0, m=mask), dict(op="update", g=0, z=z),
+                         dict(op="burn", g=0, times=times, z=rng.choice([z, z2])),
+                         dict(op="mask", g=0, m=none), dict(op="update", g=0, z=z), dict(op="acc", g=0, src=[1] * n),
+                         dict(op="update", g=0, z=z2), dict(op="drop", g=0)]
+                k += 1
+                yield flow_case("%s-w%d-%d-%d" % (tag, w, dl, k), g, steps, timeout_ms=120000)
 
 
 SNAP_SEQS = [
@@ -282,6 +329,19 @@ def snapshot_cases(seed, count, max_side, tag):
                     steps.append(dict(op="snapmut", g=0, name=o["name"], call=rng.choice(["update", "mask", "bl"])))
                 if o.get("se", 0):
                     steps.append(dict(op="esnap", g=0, name=o["name"]))
+            if rng.random() < 0.5:
+                # the graph's mask / base levels are replaced AFTER the update: the snapshots keep the state of
+                # that update until the next one (observed again before it)
+                mask_l, bl_l = gen.rand_mask_bl(rng, g)
+                steps += [dict(op="mask", g=0, m=mask_l), dict(op="bl", g=0, bl=bl_l)]
+                for j, o in snaps:
+                    if o.get("sg", 1):
+                        steps.append(dict(op="snap", g=0, name=o["name"]))
+                        steps.append(dict(op="acc", g=0, snap=o["name"], src=src))
+                        if all(x["k"] != "multi" for x in _prefix_ops(ops, j)):
+                            steps.append(dict(op="basins", g=0, snap=o["name"]))
+                    if o.get("se", 0):
+                        steps.append(dict(op="esnap", g=0, name=o["name"]))
             mask, bl = gen.rand_mask_bl(rng, g) if rng.random() < 0.5 else (mask, bl)
         steps += [dict(op="drop", g=gid) for gid in gids]
         yield flow_case("%s-%d-%d" % (tag, seed, i), g, steps)
